@@ -639,7 +639,7 @@ pub fn intern_alphabet_full(p: &Program) -> Vec<Op> {
 
 /// reduced alphabet for the deep runs needed by revisions = 3
 pub fn intern_alphabet_small(_p: &Program) -> Vec<Op> {
-    vec![Op::Set(0, 0), Op::Set(0, 1), Op::Set(0, 2), Op::Syn(Dur::Low), Op::Q(0), Op::Q(3), Op::Q(2)]
+    vec![Op::Set(0, 0), Op::Set(0, 1), Op::Set(0, 2), Op::Syn(Dur::Low), Op::Q(0), Op::Q(1), Op::Q(3), Op::Q(2)]
 }
 
 // ------------------------------------------------------------------------------------------------
